@@ -174,7 +174,7 @@ class Monitor(object):
             tt = text.strip().replace(';', ':')
             fields = tt.split(':')
             mm = re.match(r'^\d+$', fields[-2]) if len(fields) >= 2 else None
-            if k == 'timed' and d == 400 and mm and int(fields[-2]) > 45:
+            if k == 'timed' and d == 400 and mm and int(fields[-2]) > 45 and len(fields[-2]) <= 2:
                 # the 400 m "63:40 means 63.40" rewrite turned the minutes into seconds: 100 s and more come out
                 why = '400m-minutes-reread-as-seconds-gives-100s-or-more'
             elif again.ok:
@@ -182,7 +182,10 @@ class Monitor(object):
             else:
                 msg = str(again.value)
                 why = 'refused-again:' + ('own-output-not-matching-PAT_PERF' if msg.startswith('Illegal numeric pattern') else
-                                          'too-fast' if 'too fast' in msg else 'too-slow' if 'too slow' in msg else
+                                          # a result with a colon is re-read as s.hh / mm:ss.hh by the format heuristics; a plain seconds
+                                          # result that is refused as too fast is the returned mark itself lying beyond the limit
+                                          ('too-fast' if ':' in r or d is None or d > 400 else 'too-fast:plain-seconds-result') if 'too fast' in msg else
+                                          'too-slow' if 'too slow' in msg else
                                           'use-mm:ss' if msg.startswith('Please use') else
                                           'beyond-record' if 'seems too large' in msg else 'other')
             ctx.violation('idempotence:%s:%s:%s' % (why, k, dc), dict(case, first=r), r, repr(again))
@@ -247,6 +250,28 @@ def texts(rnd, n):
     return list(dict.fromkeys(out))
 
 
+def limit_texts(d):
+    """entries within 12 thousandths of the durations at which the documented speed limits bite (11 m/s up to 400 m, 10 m/s
+    beyond, 0.5 m/s everywhere): the mark that is RETURNED must respect them, whatever rounding the formatting applies"""
+    out = []
+    for lim in ((d * 1000 * 10 + 109) // 110 if d <= 400 else d * 100, d * 2000):     # thousandths of a second
+        for off in range(-12, 13):
+            n = lim + off
+            if n <= 0:
+                continue
+            sec, ms = divmod(n, 1000)
+            for frac in ('.%03d' % ms, '.%02d' % (ms // 10), '.%d' % (ms // 100)):
+                h, rem = divmod(sec, 3600)
+                m, s0 = divmod(rem, 60)
+                if sec < 100:
+                    out.append('%d%s' % (sec, frac))
+                if h:
+                    out.append('%d:%02d:%02d%s' % (h, m, s0, frac))
+                else:
+                    out.append('%d:%02d%s' % (m, s0, frac))
+    return list(dict.fromkeys(out))
+
+
 def run_shard(ctx, spec):
     core.import_athlib()
     mon = Monitor(ctx)
@@ -277,6 +302,13 @@ def run_shard(ctx, spec):
                     ctx.count('eval.case-pair-history')
     for ei, ev in enumerate(mine):
         customary = ev in CUSTOMARY
+        dc, d = mon.dclass(ev) if mon.kind(ev) == 'timed' else (None, None)
+        if d and (customary or ei % 4 == 0):
+            for t in limit_texts(int(d)):
+                for p in (None, 0, 1, 2, 3):
+                    kw = {} if p is None else {'prec': p}
+                    attach.call(f, ev, t, gender='all', errorKlass=CustomError, **kw)
+                    ctx.count('eval.entries-at-the-speed-limits')
         for t in T:
             if customary:
                 for (g, p) in opts:
